@@ -7,31 +7,26 @@ from pyvc.prop import Property
 import z3
 from . import common, lib, solver_model, solvestep as S  # noqa
 
-P = Property('C02', 'proof', 'TBD', 'contract-based deductive verification: VCs generated from the real AST (pyvc), z3/cvc5',
+P = Property('C02', 'proof',
+             'Contract on the real AST of EquationSolver._SolveStep in extended-real arithmetic (inf / nan tags, overflow at DBL_MAX, eval as an '
+             'uninterpreted function that may return any extended real or raise): a period is appended only after at least one sweep whose '
+             'accumulated scaled error is a finite number <= tolerance, which forces every reported simultaneous value to be finite; lagged '
+             'values equal the source one period earlier; decorative values are finite; a NaN / inf error never ends the iteration as converged. '
+             'All 15 loops carry invariants; z3/cvc5 discharge every obligation for all systems, list lengths and iteration counts.', 'contract-based deductive verification: VCs generated from the real AST (pyvc), z3/cvc5',
              design_ref='DESIGN.md section 6, C02')
 
-INTACT = ('periods_already_solved_intact', 'lists_unchanged() and dicts_unchanged()')
+SOLVESTEP = P.verify(S.solvestep_contract())
 
-SOLVESTEP = P.verify(fn(
-    'sfc_models.equation_solver.EquationSolver._SolveStep',
-    args=dict(self=Ref('EquationSolver'), step=INT, is_trace_step=BOOL),
-    float_mode='xreal',
-    hints=S.HINTS,
-    requires=[('not_tracing', 'not is_trace_step'), ('cap_nonneg', 'self.MaxIterations >= 0'),
-              ('solver_ready', S.READY), ('names_and_series_distinct', S.DISTINCT),
-              ('tolerance_parameter_finite', 'is_none(self.ParameterErrorTolerance) or isfinite(get(self.ParameterErrorTolerance))')],
-    ghost_after=[('err_toler = float(self.Parser.Err_Tolerance)', "_assume('isfinite(err_toler)')")] + S.GHOST,
-    loops=S.LOOPS,
-    ensures=[
-        ('simultaneous_and_lagged_series_get_one_point', S.KEPT),
-        ('every_decorative_series_gets_one_finite_point', S.allj(S.DEC, 'len(self.TimeSeries[%s[j][0]]) == step + 1 and isfinite(self.TimeSeries[%s[j][0]][step])' % (S.DEC, S.DEC))),
-        ('reported_simultaneous_values_are_finite', S.allj(S.ENDO, 'isfinite(self.TimeSeries[%s[j][0]][step])' % S.ENDO)),
-        ('lagged_equals_source_of_previous_period', S.allj(S.LAG, 'same(self.TimeSeries[%s[j][0]][step], old(self.TimeSeries[%s[j][1]][step - 1]))' % (S.LAG, S.LAG))),
-        ('earlier_periods_untouched', 'old_lists_only_extended() and lists_unchanged_except_series_of(self) and dicts_unchanged()'),
-        ('equations_untouched', "heap_unchanged_except('tyof', 'len.*', 'el.*', 'dh.*', 'dv.*', 'dk')"),
-    ],
-    raises=[RaisesSpec('ValueError', when='True', ensures=[INTACT]),        # includes ConvergenceError
-            RaisesSpec('NameError', when='True', ensures=[INTACT]),
-            RaisesSpec('OtherError', when='True', ensures=[INTACT])],
-    only_raises=True,
-))
+P.bound('residuals', 'dyn/C02.py', 'residual',
+        '19 hand-made + 40 (quick) / 1500 (thorough) random linear systems x reduction on/off x caps {None, 30}',
+        'the residual clause itself (every simultaneous equation holds at the reported values up to K*tol*scale; decorative exactly) '
+        'and a native cross-check of the contract of _SolveStep')
+P.replay_script = 'dyn/C02.py'
+P.trust('T-EVAL: eval(text, globals, env) is a function of text and env (keys + values) that returns a number (any extended real) or raises '
+        'ZeroDivisionError / ValueError / OverflowError / NameError / another error; functions registered with AddFunction are opaque entries of env',
+        'float model: extended reals with overflow saturation at DBL_MAX, no rounding',
+        'the tolerance parsed from Err_Tolerance is a finite number (ghost assumption at the float() call)',
+        'preconditions solver_ready / names_and_series_distinct are established by SetInitialConditions and the previous period (C10) and by the parser for well-formed blocks')
+P.not_decided.append('the size of the residual of a simultaneous equation at the reported point (needs the Lipschitz data of the user\'s system) and '
+                     'exactness of decorative values w.r.t. the final environment (needs locality of eval in the names of the text): bounded, dyn/C02.py residual')
+P.not_decided.append('that every decorative variable is computed (termination of the retry loop with all variables done) - only "each computed one is appended exactly once" is discharged')
